@@ -362,6 +362,7 @@ static void StructuredCases(const World& w, std::vector<Case>& out, bool all_coi
     std::vector<size_t> idx;
     if (all_coins) for (size_t i = 0; i < N; i++) idx.push_back(i);
     else idx = {0, 1, N / 2, N - 2, N - 1};
+    for (size_t i = 0; i < N; i++) if (o.groups[i].coins.size() > 1 && std::find(idx.begin(), idx.end(), i) == idx.end()) idx.push_back(i);
     for (size_t i : idx) {
         auto edit = [&](const std::string& what, const std::function<void(Snap&, DCoin&, uint32_t&)>& f) {
             Snap s = o;
@@ -370,27 +371,452 @@ static void StructuredCases(const World& w, std::vector<Case>& out, bool all_coi
         };
         edit("height+1", [](Snap&, DCoin& c, uint32_t&) { c.height += 1; });
         edit("height-1", [](Snap&, DCoin& c, uint32_t&) { c.height -= 1; });
+        edit("height=110", [](Snap&, DCoin& c, uint32_t&) { c.height = c.height == 110 ? 109 : 110; });
         edit("height=111", [](Snap&, DCoin& c, uint32_t&) { c.height = 111; });
         edit("height=0", [](Snap&, DCoin& c, uint32_t&) { c.height = 0; });
         edit("coinbase-bit", [](Snap&, DCoin& c, uint32_t&) { c.cb = !c.cb; });
         edit("amount+1", [](Snap&, DCoin& c, uint32_t&) { c.amount += 1; });
-        edit("amount-1", [](Snap&, DCoin& c, uint32_t&) { c.amount -= 1; });
-        edit("amount=0", [](Snap&, DCoin& c, uint32_t&) { c.amount = 0; });
+        edit("amount-1", [](Snap&, DCoin& c, uint32_t&) { c.amount = c.amount ? c.amount - 1 : 2; });
+        edit("amount=0", [](Snap&, DCoin& c, uint32_t&) { c.amount = c.amount ? 0 : 3; });
         edit("amount=maxmoney+1", [](Snap&, DCoin& c, uint32_t&) { c.amount = 2100000000000000ULL + 1; });
-        edit("script-parity", [](Snap&, DCoin& c, uint32_t&) { c.script[1] ^= 1; });
-        edit("script-last-key-byte", [](Snap&, DCoin& c, uint32_t&) { c.script[33] ^= 1; });
-        edit("script=p2pkh", [](Snap&, DCoin& c, uint32_t&) { Bytes s{0x76, 0xa9, 0x14}; s.insert(s.end(), c.script.begin() + 2, c.script.begin() + 22); s.push_back(0x88); s.push_back(0xac); c.script = s; });
+        edit("script-byte1", [](Snap&, DCoin& c, uint32_t&) { c.script[c.script.size() > 1 ? 1 : 0] ^= 1; });
+        edit("script-middle-byte", [](Snap&, DCoin& c, uint32_t&) { c.script[c.script.size() / 2] ^= 1; });
+        edit("script-last-byte", [](Snap&, DCoin& c, uint32_t&) { c.script.back() ^= 1; });
+        edit("script=p2pkh(txid)", [i](Snap& s, DCoin& c, uint32_t&) { Bytes x{0x76, 0xa9, 0x14}; x.insert(x.end(), s.groups[i].txid.begin(), s.groups[i].txid.begin() + 20); x.push_back(0x88); x.push_back(0xac); if (x == c.script) x[5] ^= 1; c.script = x; });
         edit("script=empty", [](Snap&, DCoin& c, uint32_t&) { c.script.clear(); });
+        edit("script=raw-form-of-other-type", [](Snap&, DCoin& c, uint32_t&) { c.script = Bytes{0xa9, 0x14, 1, 2, 3, 4, 5, 6, 7, 8, 9, 10, 11, 12, 13, 14, 15, 16, 17, 18, 19, 20, 0x87}; });
         edit("script+opcode", [](Snap&, DCoin& c, uint32_t&) { c.script.push_back(0x51); });
-        edit("index=1", [](Snap&, DCoin&, uint32_t& n) { n = 1; });
+        edit("index+1000", [](Snap&, DCoin&, uint32_t& n) { n += 1000; });
         edit("index=253", [](Snap&, DCoin&, uint32_t& n) { n = 253; });
         edit("txid-bit", [i](Snap& s, DCoin&, uint32_t&) { s.groups[i].txid[7] ^= 0x10; });
         { Snap s = o; s.groups.erase(s.groups.begin() + i); s.count -= 1; add(strprintf("coin%zu:removed,count-1", i), s); }
         { Snap s = o; s.groups.erase(s.groups.begin() + i); add(strprintf("coin%zu:removed,count-kept", i), s); }
-        { Snap s = o; auto c = s.groups[i].coins[0]; c.first = 1; s.groups[i].coins.push_back(c); s.count += 1; add(strprintf("coin%zu:second-output-added,count+1", i), s); }
+        { Snap s = o; auto c = s.groups[i].coins.back(); c.first += 7; s.groups[i].coins.push_back(c); s.count += 1; add(strprintf("coin%zu:output-added,count+1", i), s); }
+        if (o.groups[i].coins.size() > 1) {
+            { Snap s = o; s.groups[i].coins.pop_back(); s.count -= 1; add(strprintf("coin%zu:last-output-dropped,count-1", i), s); }
+            { Snap s = o; s.groups[i].coins.pop_back(); add(strprintf("coin%zu:last-output-dropped,count-kept", i), s); }
+            { Snap s = o; std::swap(s.groups[i].coins.front(), s.groups[i].coins.back()); add(strprintf("coin%zu:outputs-swapped(same set)", i), s); }
+            { Snap s = o; std::swap(s.groups[i].coins.front().second, s.groups[i].coins.back().second); if (!(s.groups[i].coins.front().second == o.groups[i].coins.front().second)) add(strprintf("coin%zu:output-contents-exchanged", i), s); }
+            { Snap s = o; Group g2; g2.txid = s.groups[i].txid; g2.coins.push_back(s.groups[i].coins.back()); s.groups[i].coins.pop_back(); s.groups.insert(s.groups.begin() + i + 1, g2); add(strprintf("coin%zu:group-split(same set)", i), s); }
+            { Snap s = o; s.groups[i].coins.back().second.amount += 1; add(strprintf("coin%zu:last-output-amount+1", i), s); }
+        }
         { Snap s = o; s.groups[i].coins.clear(); s.count -= 1; add(strprintf("coin%zu:group-emptied,count-1", i), s); }
         { Snap s = o; add(strprintf("coin%zu:raw-script-encoding(same set)", i), s, true, i); }
     }
+}
+
+struct Inputs {
+    std::string tag;            // prefix of case names / violation keys
+    std::vector<CBlock> blocks; // [0] unused, 1..111
+    Bytes s100, s110, s111;     // snapshots at heights 100 / 110 / 111 (s100, s111 may be empty: scenarios skipped)
+    int64_t last_time{0};
+    bool doctored{true};        // run the doctored + re-pointed commitment scenarios
+    std::optional<AssumeutxoData> repoint; // overwrite the height-110 assumeutxo entry once the target node exists
+};
+struct Totals {
+    std::map<std::string, uint64_t> counts;
+    vx::Distinct rejected_cases;
+    bool complete{true};
+    std::map<std::string, size_t> flip_offsets, snapshot_bytes;
+};
+
+// One campaign: target node for the given chain, all corruptions of in.s110, scenarios. Returns 0, or 2 on a harness error.
+static int Campaign(const Inputs& in, const fs::path& scratch, bool big, Totals& tot)
+{
+    auto& E = vx::ev();
+    const std::string& TAG = in.tag;
+    const std::vector<CBlock>& blocks = in.blocks;
+    const Bytes &s100 = in.s100, &s110 = in.s110, &s111 = in.s111;
+    const int64_t last_time = in.last_time;
+    // ---------------------------------------------------------------- target node
+    // The clock is 3 days past the last block: T stays in initial block download (the situation loadtxoutset is made
+    // for). Outside IBD every full flush starts, with probability 1/320, an asynchronous chainstate compaction
+    // thread (Chainstate::FlushStateToDisk -> CompactFullAsync), which would make fork() unsound.
+    SetMockTime(last_time + 3 * 24 * 3600);
+    ck::NodeOpts no;
+    ck::Node T(no); // (constructing a node re-creates the global chain parameters)
+    if (in.repoint) {
+        auto& params = const_cast<CChainParams&>(Params());
+        bool set = false;
+        for (auto& a : params.m_assumeutxo_data) if (a.height == 110) { a = *in.repoint; set = true; }
+        if (!set) { printf("HARNESS-ERROR C20: no assumeutxo entry for height 110\n"); return 2; }
+    }
+    const auto au = Params().AssumeutxoForHeight(110);
+    if (!au || au->blockhash != blocks[110].GetHash()) { printf("HARNESS-ERROR C20: chain %s does not match the assumeutxo block\n", TAG.c_str()); return 2; }
+    for (int h = 1; h <= 100; h++) {
+        auto r = T.ProcessBlock(blocks[h]);
+        if (!r.pnb_ret || T.height() != h) { printf("HARNESS-ERROR C20: target rejected block %d (%s)\n", h, r.reason.c_str()); return 2; }
+    }
+    auto add_header = [&](int h) {
+        BlockValidationState st;
+        if (!T.ProcessHeader(blocks[h], st)) throw std::runtime_error("C20: header rejected: " + st.ToString());
+    };
+    for (int h = 101; h <= 109; h++) add_header(h);
+    T.Flush();
+    if (!T.chainman().IsInitialBlockDownload()) { printf("HARNESS-ERROR C20: target node left IBD\n"); return 2; }
+
+    const auto mstart = Params().MessageStart();
+    World w{T, scratch};
+    w.blocks = blocks;
+    w.s100 = s100; w.s110 = s110; w.s111 = s111;
+    w.netmagic = Bytes(mstart.begin(), mstart.end());
+    w.h110 = blocks[110].GetHash();
+    w.orig = Decode(s110, w.netmagic);
+    if (!w.orig.ok || w.orig.first != w.orig.last) { printf("HARNESS-ERROR C20: reference decoder rejects the genuine snapshot: %s\n", w.orig.err.c_str()); return 2; }
+    // cross-checks of the reference side against the commitment in chainparams and against its own encoder
+    if (AssumeutxoHash{HashSerializedRef(w.orig.first)} != au->hash_serialized) {
+        vx::violation(TAG + ":snapshot-hash-vs-commitment", "the coin set written by the dump code at height 110 does not hash (independent SHA256d over outpoint|code|txout in database order) to the assumeutxo commitment in chainparams", "genuine snapshot");
+    }
+    if (Encode(w.orig.s) != s110) { printf("HARNESS-ERROR C20: reference encoder does not reproduce the genuine snapshot bytes\n"); return 2; }
+    if (TAG == "tc" && (w.orig.s.count != 110 || w.orig.first.size() != 110)) { printf("HARNESS-ERROR C20: unexpected coin count\n"); return 2; }
+    E.sample(TAG + strprintf(" genuine snapshot: %zu bytes, %zu coins in %zu txid groups, base %s", s110.size(), w.orig.first.size(), w.orig.s.groups.size(), w.h110.ToString()));
+
+    std::map<std::string, uint64_t> counts;
+    vx::Distinct& rejected_cases = tot.rejected_cases;
+    bool complete = true;
+    auto fold = [&](fp::Pool& pool) {
+        for (auto& [k, v] : pool.counts) counts[k] += v;
+        for (auto h : pool.distinct["rejected"]) rejected_cases.add(h ^ vx::fnv1a(TAG));
+        for (auto& s : pool.samples) E.sample(s);
+        if (!pool.complete) complete = false;
+    };
+
+    // run `fn` in a throw-away fork (it may change the node), forwarding its output
+    auto in_fork = [&](fp::Out& out, const std::string& what, const std::function<void()>& fn) {
+        out.send_counts(); // the child must not inherit (and re-send) counters accumulated so far
+        out.flush();
+        fflush(stdout);
+        if (ck::ThreadCount() != 1) {
+            if (getenv("C20_DEBUG_THREADS")) { std::string cmd = "for t in /proc/" + std::to_string(getpid()) + "/task/*; do cat $t/comm; done 1>&2; gdb -p " + std::to_string(getpid()) + " -batch -ex 'thread apply all bt 8' 2>/dev/null | grep '^#' | cut -c1-140 1>&2"; (void)!system(cmd.c_str()); }
+            out.count("harness_not_single_threaded");
+            return; // fork would be unsound
+        }
+        pid_t g = fork();
+        if (g < 0) throw std::runtime_error("C20: fork failed");
+        if (g == 0) {
+            w.PrivateDatadir();
+            fn();
+            out.send_counts();
+            out.flush();
+            fflush(stdout);
+            _exit(0);
+        }
+        int st = 0;
+        while (waitpid(g, &st, 0) < 0 && errno == EINTR) {}
+        if (!WIFEXITED(st) || WEXITSTATUS(st) != 0) out.violation(TAG + ":" + "process-died:" + what, "the process died abnormally while running: " + what, what);
+    };
+
+    // ---------------------------------------------------------------- scenario: base header unknown (before header 110 is added)
+    {
+        fp::Pool pool;
+        pool.workers = 1;
+        pool.run(1, [&](uint64_t, fp::Out& out) {
+            in_fork(out, "scenario:unknown-base-header", [&] {
+                auto before = w.Observe();
+                std::string why;
+                auto r = w.Attempt(s110, false, &why);
+                out.count("scenario_cases");
+                if (r == World::ACTIVATED) out.violation(TAG + ":" + "scenario:unknown-base-header", "snapshot activated although the node does not know the base block header", "scenario unknown-base-header");
+                else { out.count("scenario_rejected"); out.distinct("rejected", "scenario:unknown-base-header"); }
+                std::string d = World::Diff(before, w.Observe());
+                if (r != World::ACTIVATED && !d.empty()) out.violation(TAG + ":" + "scenario:unknown-base-header:state", "failed activation changed the node:" + d, "scenario unknown-base-header");
+            });
+        }, [](uint64_t) { return std::string("scenario unknown-base-header"); });
+        fold(pool);
+    }
+    add_header(110);
+    T.Flush();
+
+    // ---------------------------------------------------------------- enumerated corruptions
+    std::vector<Case> cases;      // explicit files
+    StructuredCases(w, cases, /*all_coins=*/false);                // on-disk snapshot chainstate, each in its own fork
+    if (big) {
+        std::vector<Case> mem;
+        StructuredCases(w, mem, /*all_coins=*/true);               // in-memory, sequential
+        for (auto& c : mem) { c.in_memory = true; c.name += ":mem"; cases.push_back(std::move(c)); }
+    }
+    for (int k = 1; k <= 3; k++) for (unsigned char fill : {0x00, 0xff}) { Case c{strprintf("append:%d:%02x", k, fill), s110, true}; c.file.insert(c.file.end(), k, fill); cases.push_back(c); }
+    // flips and truncations are generated from their index
+    std::vector<size_t> flip_offsets;
+    if (big) for (size_t i = 0; i < s110.size(); i++) flip_offsets.push_back(i);
+    else {
+        // quick: whole metadata header, the first 3 and the last coin record
+        size_t rec = (s110.size() - 51) / w.orig.first.size() + 1;
+        for (size_t i = 0; i < 51 + 3 * rec && i < s110.size(); i++) flip_offsets.push_back(i);
+        for (size_t i = s110.size() - rec; i < s110.size(); i++) flip_offsets.push_back(i);
+    }
+    if (const char* e = getenv("C20_ALLFLIPS")) { (void)e; flip_offsets.clear(); for (size_t i = 0; i < s110.size(); i++) flip_offsets.push_back(i); }
+    const uint64_t n_flip = flip_offsets.size() * 2, n_trunc = s110.size(), n_explicit = cases.size();
+    const uint64_t total = n_flip + n_trunc + n_explicit;
+    auto make = [&](uint64_t j) -> Case {
+        if (j < n_flip) { size_t off = flip_offsets[j / 2]; unsigned char m = (j & 1) ? 0x80 : 0x01; Case c{strprintf("flip:%zu:%02x", off, m), s110, true}; c.file[off] ^= m; return c; }
+        j -= n_flip;
+        if (j < n_trunc) { Case c{strprintf("truncate:%llu", (unsigned long long)j), Bytes(s110.begin(), s110.begin() + j), true}; return c; }
+        j -= n_trunc;
+        return cases[j];
+    };
+    const uint64_t BATCH = 64;
+    // Two passes over the same case list. Pass 0 (workers may fork): every case whose rejection is tested with an
+    // in-memory snapshot chainstate, and every set-preserving case (run in a fork). Pass 1 (workers never fork, an
+    // on-disk LevelDB may start a helper thread): the must-fail cases with an on-disk snapshot chainstate.
+    for (int pass = 0; pass < 2; pass++) {
+        fp::Pool pool;
+        pool.workers = 8;
+        pool.on_worker_start = [&](unsigned) { w.PrivateDatadir(); };
+        pool.run((total + BATCH - 1) / BATCH, [&](uint64_t job, fp::Out& out) {
+            World::State base = w.Observe();
+            for (uint64_t j = job * BATCH; j < std::min(total, (job + 1) * BATCH); j++) {
+                Case c = make(j);
+                Decoded d = Decode(c.file, w.netmagic);
+                const bool must_fail = w.MustFail(d);
+                if ((must_fail && !c.in_memory) != (pass == 1)) continue;
+                out.count("cases");
+                const std::string replay = "case " + c.name + "\nfile hex: " + vx::hex(c.file).substr(0, 20000);
+                if (must_fail) {
+                    std::string why;
+                    auto r = w.Attempt(c.file, c.in_memory, &why);
+                    if (r == World::ACTIVATED) {
+                        std::string kind = c.name.substr(0, c.name.find(':'));
+                        out.violation(TAG + ":" + "activated:" + (kind == "edit" ? c.name : kind + ":" + (d.ok ? std::string("set-differs") : d.err)),
+                                      "ActivateSnapshot succeeded for a file whose " + (d.ok ? std::string("decoded coin set / base block differs from the commitment") : "encoding is malformed (" + d.err + ")") + ": " + c.name, replay);
+                        out.count("worker_gave_up");
+                        out.send_counts();
+                        out.flush();
+                        _exit(0); // the node now runs on the bad snapshot: this process cannot continue
+                    }
+                    out.count(r == World::META_FAIL ? "rejected_at_metadata" : "rejected_by_activate");
+                    if (!c.in_memory) out.count("rejected_on_disk");
+                    out.distinct("rejected", c.name);
+                    World::State now = w.Observe();
+                    std::string diff = World::Diff(base, now);
+                    if (!diff.empty()) {
+                        out.violation(TAG + ":" + "state-changed-after-failure:" + c.name.substr(0, c.name.find(':')), "failed activation (" + why + ") changed the node:" + diff + " — case " + c.name, replay);
+                        out.count("worker_gave_up");
+                        out.send_counts();
+                        out.flush();
+                        _exit(0);
+                    }
+                } else {
+                    // identical coin set and base block: acceptance is allowed; run in a fork and check the result
+                    in_fork(out, c.name, [&] {
+                        std::string why;
+                        auto r = w.Attempt(c.file, c.in_memory, &why);
+                        out.count("same_set_cases");
+                        if (r == World::ACTIVATED) {
+                            out.count("same_set_accepted");
+                            CoinMap got = NodeUtxo(w.T);
+                            if (got != w.orig.first) out.violation(TAG + ":" + "accepted-set-differs:" + c.name, "after an accepted activation the active UTXO set is not the committed coin set: " + c.name, replay);
+                            if (w.T.tip()->GetBlockHash() != w.h110) out.violation(TAG + ":" + "accepted-tip:" + c.name, "after an accepted activation the tip is not the base block", replay);
+                        } else {
+                            out.count("same_set_rejected");
+                            std::string diff = World::Diff(base, w.Observe());
+                            if (!diff.empty()) out.violation(TAG + ":" + "state-changed-after-failure:same-set", "failed activation (" + why + ") changed the node:" + diff + " — case " + c.name, replay);
+                        }
+                        out.sample(TAG + " same-set file " + c.name + " -> " + (r == World::ACTIVATED ? "accepted" : "rejected: " + why));
+                    });
+                }
+            }
+        }, [&](uint64_t job) { return strprintf("cases %llu..%llu (first: %s)", (unsigned long long)(job * BATCH), (unsigned long long)std::min(total, (job + 1) * BATCH) - 1, make(job * BATCH).name); });
+        fold(pool);
+    }
+
+    // ---------------------------------------------------------------- scenarios and background validation (each in a fork)
+    struct Scen { std::string name; std::function<void(fp::Out&)> run; };
+    std::vector<Scen> scens;
+    auto expect_reject = [&](fp::Out& out, const std::string& name, const Bytes& file, const std::string& what) {
+        auto before = w.Observe();
+        std::string why;
+        auto r = w.Attempt(file, false, &why);
+        out.count("scenario_cases");
+        if (r == World::ACTIVATED) { out.violation(TAG + ":" + "scenario:" + name, "snapshot activated although " + what, "scenario " + name); return; }
+        out.count("scenario_rejected");
+        out.distinct("rejected", "scenario:" + name);
+        std::string d = World::Diff(before, w.Observe());
+        if (!d.empty()) out.violation(TAG + ":" + "scenario:" + name + ":state", "failed activation (" + why + ") changed the node:" + d, "scenario " + name);
+    };
+    auto feed = [&](int from, int to) { for (int h = from; h <= to; h++) T.ProcessBlock(blocks[h]); };
+    if (!s100.empty()) scens.push_back({"non-assumeutxo-height-100", [&](fp::Out& o) { expect_reject(o, "non-assumeutxo-height-100", s100, "its base block (height 100) is not an assumeutxo block"); }});
+    if (!s111.empty()) scens.push_back({"non-assumeutxo-height-111", [&](fp::Out& o) { add_header(111); expect_reject(o, "non-assumeutxo-height-111", s111, "its base block (height 111) is not an assumeutxo block"); }});
+    scens.push_back({"base-marked-invalid", [&](fp::Out& o) { if (!T.Invalidate(blocks[110].GetHash())) throw std::runtime_error("invalidate"); expect_reject(o, "base-marked-invalid", s110, "its base block is marked invalid"); }});
+    scens.push_back({"base-ancestor-marked-invalid", [&](fp::Out& o) { if (!T.Invalidate(blocks[105].GetHash())) throw std::runtime_error("invalidate"); expect_reject(o, "base-ancestor-marked-invalid", s110, "an ancestor of its base block is marked invalid"); }});
+    scens.push_back({"equal-work-tip-at-base", [&](fp::Out& o) { feed(101, 110); if (T.height() != 110) throw std::runtime_error("feed"); expect_reject(o, "equal-work-tip-at-base", s110, "the active tip already is the base block (no more work)"); }});
+    scens.push_back({"less-work-than-tip", [&](fp::Out& o) { feed(101, 111); if (T.height() != 111) throw std::runtime_error("feed"); expect_reject(o, "less-work-than-tip", s110, "the active tip has more work than the base block"); }});
+    // positive control + second activation + background validation of the genuine snapshot
+    scens.push_back({"genuine-then-background-validation", [&](fp::Out& o) {
+        auto before = w.Observe();
+        std::string why;
+        auto r = w.Attempt(s110, false, &why);
+        o.count("scenario_cases");
+        if (r != World::ACTIVATED) { o.violation(TAG + ":" + "genuine-rejected", "the genuine snapshot was rejected: " + why, "scenario genuine"); return; }
+        o.count("genuine_accepted");
+        if (NodeUtxo(T) != w.orig.first || T.tip()->GetBlockHash() != w.h110) o.violation(TAG + ":" + "genuine-active-set", "after activating the genuine snapshot the active chainstate is not (block 110, committed coin set)", "scenario genuine");
+        { LOCK(cs_main); if (T.chainman().m_chainstates.size() != 2) o.violation(TAG + ":" + "genuine-chainstates", "expected two chainstates after activation", "scenario genuine"); }
+        // second activation must fail and change nothing
+        expect_reject(o, "second-activation", s110, "a snapshot chainstate is already active");
+        // background validation: feed the historical blocks
+        feed(101, 110);
+        LOCK(cs_main);
+        auto& cur = T.chainman().CurrentChainstate();
+        bool validated = cur.m_from_snapshot_blockhash && cur.m_assumeutxo == Assumeutxo::VALIDATED;
+        if (!validated || (bool)T.m_interrupt) o.violation(TAG + ":" + "background-validation-genuine", "background validation of the genuine snapshot did not report success", "scenario genuine + blocks 101..110");
+        else o.count("background_validated");
+        (void)before;
+    }});
+    // doctored but self-consistent snapshots: commitment re-pointed (harness side) at the doctored set
+    struct Doc { std::string name; std::function<void(Snap&)> f; };
+    std::vector<Doc> docs = {
+        {"amount+1", [](Snap& s) { s.groups[7].coins[0].second.amount += 1; }},
+        {"height-1", [](Snap& s) { s.groups[7].coins[0].second.height -= 1; }},
+        {"coinbase-bit", [](Snap& s) { s.groups[7].coins[0].second.cb = false; }},
+        {"script-byte", [](Snap& s) { s.groups[7].coins[0].second.script[20] ^= 4; }},
+        {"coin-removed", [](Snap& s) { s.groups.erase(s.groups.begin() + 7); s.count -= 1; }},
+        {"coin-added", [](Snap& s) { Group e = s.groups[7]; e.txid[3] ^= 0x77; s.groups.push_back(e); s.count += 1; }},
+    };
+    if (!in.doctored) docs.clear();
+    for (auto& dc : docs) {
+        scens.push_back({"doctored:" + dc.name, [&, dc](fp::Out& o) {
+            Snap s = w.orig.s;
+            dc.f(s);
+            Bytes file = Encode(s);
+            Decoded d = Decode(file, w.netmagic);
+            if (!d.ok) throw std::runtime_error("doctored snapshot does not decode");
+            o.count("scenario_cases");
+            // without re-pointing it must be rejected (also covered by the structured edits)
+            {
+                auto before = w.Observe();
+                auto r0 = w.Attempt(file, false);
+                if (r0 == World::ACTIVATED) { o.violation(TAG + ":" + "doctored-accepted:" + dc.name, "doctored snapshot accepted against the genuine commitment", "scenario doctored " + dc.name); return; }
+                std::string df = World::Diff(before, w.Observe());
+                if (!df.empty()) o.violation(TAG + ":" + "doctored-state:" + dc.name, "failed activation changed the node:" + df, "scenario doctored " + dc.name);
+            }
+            auto& params = const_cast<CChainParams&>(Params());
+            for (auto& a : params.m_assumeutxo_data) if (a.height == 110) a.hash_serialized = AssumeutxoHash{HashSerializedRef(d.first)};
+            std::string why;
+            auto r = w.Attempt(file, false, &why);
+            if (r != World::ACTIVATED) { o.violation(TAG + ":" + "harness-doctored-not-accepted:" + dc.name, "a self-consistent snapshot was rejected although the commitment was re-pointed at the reference hash of its coin set: " + why, "scenario doctored " + dc.name); return; }
+            o.count("doctored_accepted_after_repoint");
+            feed(101, 110);
+            LOCK(cs_main);
+            bool snapshot_invalid = false, still_trusted = false;
+            for (auto& cs : T.chainman().m_chainstates) {
+                if (cs && cs->m_from_snapshot_blockhash) {
+                    if (cs->m_assumeutxo == Assumeutxo::INVALID) snapshot_invalid = true;
+                    if (cs->m_assumeutxo == Assumeutxo::VALIDATED) still_trusted = true;
+                }
+            }
+            if (!snapshot_invalid || still_trusted || !(bool)T.m_interrupt)
+                o.violation(TAG + ":" + "background-validation-missed:" + dc.name, "background validation reached the base block with a UTXO set that differs from the loaded (doctored) snapshot but did not report the mismatch", "scenario doctored " + dc.name + " + blocks 101..110");
+            else { o.count("background_mismatch_detected"); o.distinct("rejected", "doctored-bg:" + dc.name); }
+        }});
+    }
+    {
+        fp::Pool pool;
+        pool.workers = 4;
+        pool.run(scens.size(), [&](uint64_t j, fp::Out& out) { in_fork(out, "scenario " + scens[j].name, [&] { scens[j].run(out); }); }, [&](uint64_t j) { return "scenario " + scens[j].name; });
+        fold(pool);
+    }
+
+    for (auto& [k, v] : counts) tot.counts[TAG + "." + k] += v;
+    tot.flip_offsets[TAG] = flip_offsets.size();
+    tot.snapshot_bytes[TAG] = s110.size();
+    if (!complete) tot.complete = false;
+    return 0;
+}
+
+
+// A transaction-rich 111-block chain built with chainkit, dumped with the real dump code at height 110. The regtest
+// assumeutxo entry for height 110 is then re-pointed (harness side) at this chain: block hash of its block 110,
+// transaction count, and the *reference* hash of the decoded dump. That the genuine dump then activates and that
+// background validation of blocks 1..110 confirms it is the cross-check of ComputeUTXOStats / the loader against the
+// independent hash on a set with several outputs per txid, spent siblings, non-coinbase coins, 3-byte output
+// indices, zero amounts and every compressed script form except uncompressed keys.
+static int BuildRichWorld(Inputs& in, const fs::path& scratch)
+{
+    using namespace ck;
+    SetMockTime((int64_t)Params().GenesisBlock().nTime + 600 * 112 + 3 * 24 * 3600); // the source node stays in IBD too (no compaction thread)
+    Node S{NodeOpts{}};
+    const CBlock& genesis = Params().GenesisBlock(); // after the node: its constructor re-creates the chain parameters
+    RefLedger L;
+    L.AddGenesis(genesis);
+    MineEmpty(S, L, 101);
+    auto cb = [&](int h) { const CBlock& b = L.blocks.at(L.Chain(S.tip()->GetBlockHash())[h]).block; return std::make_pair(COutPoint(b.vtx[0]->GetHash(), 0), b.vtx[0]->vout[0].nValue); };
+    auto mine = [&](const std::vector<CTransactionRef>& txs) {
+        BlockOpts o;
+        auto f = L.Fees(S.tip()->GetBlockHash(), txs);
+        if (!f) throw std::runtime_error("C20: rich chain: bad tx");
+        o.fees = *f;
+        CBlock b = MakeBlock(S, S.tip(), txs, o);
+        L.Add(b);
+        auto r = S.ProcessBlock(b);
+        if (!r.pnb_ret || S.tip()->GetBlockHash() != b.GetHash()) throw std::runtime_error("C20: rich chain: block rejected: " + r.reason);
+    };
+    auto bytes20 = [](unsigned char v) { std::vector<unsigned char> x(20); for (int i = 0; i < 20; i++) x[i] = v + 3 * i; return x; };
+    auto key33 = [](unsigned char prefix, unsigned char v) { std::vector<unsigned char> x(33); x[0] = prefix; for (int i = 1; i < 33; i++) x[i] = v + 5 * i; return x; };
+    const CScript p2pkh = CScript() << OP_DUP << OP_HASH160 << bytes20(0x11) << OP_EQUALVERIFY << OP_CHECKSIG;
+    const CScript p2sh = CScript() << OP_HASH160 << bytes20(0x77) << OP_EQUAL;
+    const CScript p2pk2 = CScript() << key33(0x02, 0x21) << OP_CHECKSIG;
+    const CScript p2pk3 = CScript() << key33(0x03, 0x42) << OP_CHECKSIG;
+    const CScript bare_true = CScript() << OP_TRUE;
+    const CScript longish = CScript() << std::vector<unsigned char>(200, 0xab) << OP_DROP << OP_TRUE;
+    const CScript opret = CScript() << OP_RETURN << std::vector<unsigned char>{1, 2, 3};
+    {   // block 102: one tx with every script form; outputs 0 and 5 get spent in block 103, output 7 is unspendable
+        auto [op, v] = cb(1);
+        CAmount part = v / 10;
+        auto A = MakeTransactionRef(MakeTx({{op}}, {{part, OpTrueSpk()}, {part, p2pkh}, {part, p2sh}, {part + 1, p2pk2}, {part + 22, p2pk3}, {part, bare_true}, {part - 23, longish}, {0, opret}, {0, OpTrueSpk()}, {v - 7 * part, p2pkh}}));
+        mine({A});
+        auto B = MakeTransactionRef(MakeTx({{COutPoint(A->GetHash(), 0)}, {COutPoint(A->GetHash(), 5), 0xffffffff, false}}, {{part, OpTrueSpk()}, {part, p2sh}}));
+        mine({B});
+    }
+    {   // block 104: 260 outputs, only the last one (index 259: 3-byte CompactSize) is spendable
+        auto [op, v] = cb(2);
+        std::vector<TxOut> outs(259, TxOut{0, opret});
+        outs.push_back({v, OpTrueSpk()});
+        mine({MakeTransactionRef(MakeTx({{op}}, outs))});
+    }
+    {   // block 105: parent and child in one block, the child spends the middle output
+        auto [op, v] = cb(3);
+        auto D = MakeTransactionRef(MakeTx({{op}}, {{v / 3, OpTrueSpk()}, {v / 3, OpTrueSpk()}, {v - 2 * (v / 3), p2pk2}}));
+        auto Etx = MakeTransactionRef(MakeTx({{COutPoint(D->GetHash(), 1)}}, {{v / 3 - 1000, p2pkh}}));
+        mine({D, Etx});
+    }
+    MineEmpty(S, L, 6); // 106..111
+    if (S.height() != 111) throw std::runtime_error("C20: rich chain height");
+    std::vector<uint256> chain = L.Chain(S.tip()->GetBlockHash());
+    in.blocks.assign(1, CBlock{});
+    uint64_t txcount = 1;
+    for (int h = 1; h <= 111; h++) { in.blocks.push_back(L.blocks.at(chain[h]).block); if (h <= 110) txcount += in.blocks[h].vtx.size(); }
+    in.last_time = in.blocks[111].GetBlockTime();
+    // dump at height 110: take block 111 off again
+    if (!S.Invalidate(chain[111]) || S.height() != 110) throw std::runtime_error("C20: rich chain: cannot step back to 110");
+    fs::path p = scratch / "rich110.dat";
+    {
+        AutoFile out{fsbridge::fopen(p, "wb")};
+        CreateUTXOSnapshot(S.m_node, S.cs(), std::move(out), p, p);
+    }
+    FILE* f = fsbridge::fopen(p, "rb");
+    int c;
+    while ((c = fgetc(f)) != EOF) in.s110.push_back((unsigned char)c);
+    fclose(f);
+    const auto mstart = Params().MessageStart();
+    Decoded d = Decode(in.s110, Bytes(mstart.begin(), mstart.end()));
+    if (!d.ok) { printf("HARNESS-ERROR C20: reference decoder rejects the rich dump: %s\n", d.err.c_str()); return 2; }
+    // the dump must be the reference ledger's UTXO set at block 110
+    auto ref = L.UtxoAt(chain[110]);
+    bool same = ref && ref->size() == d.first.size();
+    if (same) for (auto& [op, rc] : *ref) {
+        OutKey k;
+        const uint256& u = op.hash.ToUint256();
+        std::copy(u.begin(), u.end(), k.first.begin());
+        k.second = op.n;
+        auto it = d.first.find(k);
+        if (it == d.first.end() || it->second.amount != (uint64_t)rc.value || (int)it->second.height != rc.height || it->second.cb != rc.coinbase || it->second.script != Bytes(rc.spk.begin(), rc.spk.end())) { same = false; break; }
+    }
+    if (!same) vx::violation("rich:dump-vs-ledger", "the snapshot written by the dump code is not the UTXO set of the reference ledger at block 110", "rich chain dump");
+    in.repoint = AssumeutxoData{.height = 110, .hash_serialized = AssumeutxoHash{HashSerializedRef(d.first)}, .m_chain_tx_count = txcount, .blockhash = chain[110]};
+    size_t multi = 0;
+    for (auto& g : d.s.groups) multi += g.coins.size() > 1;
+    vx::ev().sample(strprintf("rich snapshot: %zu bytes, %zu coins in %zu txid groups (%zu with several outputs)", in.s110.size(), d.first.size(), d.s.groups.size(), multi));
+    return 0;
 }
 
 static int Run();
@@ -450,302 +876,50 @@ static int Run()
     const auto au = Params().AssumeutxoForHeight(110);
     if (!au || au->blockhash != blocks[110].GetHash()) { printf("HARNESS-ERROR C20: source chain does not match the regtest assumeutxo block\n"); return 2; }
 
-    // ---------------------------------------------------------------- target node
-    // The clock is 3 days past the last block: T stays in initial block download (the situation loadtxoutset is made
-    // for). Outside IBD every full flush starts, with probability 1/320, an asynchronous chainstate compaction
-    // thread (Chainstate::FlushStateToDisk -> CompactFullAsync), which would make fork() unsound.
-    SetMockTime(last_time + 3 * 24 * 3600);
-    ck::NodeOpts no;
-    ck::Node T(no);
-    for (int h = 1; h <= 100; h++) {
-        auto r = T.ProcessBlock(blocks[h]);
-        if (!r.pnb_ret || T.height() != h) { printf("HARNESS-ERROR C20: target rejected block %d (%s)\n", h, r.reason.c_str()); return 2; }
-    }
-    auto add_header = [&](int h) {
-        BlockValidationState st;
-        if (!T.ProcessHeader(blocks[h], st)) throw std::runtime_error("C20: header rejected: " + st.ToString());
-    };
-    for (int h = 101; h <= 109; h++) add_header(h);
-    T.Flush();
-    if (!T.chainman().IsInitialBlockDownload()) { printf("HARNESS-ERROR C20: target node left IBD\n"); return 2; }
-
-    const auto mstart = Params().MessageStart();
-    World w{T, scratch};
-    w.blocks = blocks;
-    w.s100 = s100; w.s110 = s110; w.s111 = s111;
-    w.netmagic = Bytes(mstart.begin(), mstart.end());
-    w.h110 = blocks[110].GetHash();
-    w.orig = Decode(s110, w.netmagic);
-    if (!w.orig.ok || w.orig.first != w.orig.last) { printf("HARNESS-ERROR C20: reference decoder rejects the genuine snapshot: %s\n", w.orig.err.c_str()); return 2; }
-    // cross-checks of the reference side against the commitment in chainparams and against its own encoder
-    if (AssumeutxoHash{HashSerializedRef(w.orig.first)} != au->hash_serialized) {
-        vx::violation("snapshot-hash-vs-commitment", "the coin set written by the dump code at height 110 does not hash (independent SHA256d over outpoint|code|txout in database order) to the assumeutxo commitment in chainparams", "genuine snapshot");
-    }
-    if (Encode(w.orig.s) != s110) { printf("HARNESS-ERROR C20: reference encoder does not reproduce the genuine snapshot bytes\n"); return 2; }
-    if (w.orig.s.count != 110 || w.orig.first.size() != 110) { printf("HARNESS-ERROR C20: unexpected coin count\n"); return 2; }
-    E.sample(strprintf("genuine snapshot: %zu bytes, %zu coins in %zu txid groups, base %s", s110.size(), w.orig.first.size(), w.orig.s.groups.size(), w.h110.ToString()));
-
-    std::map<std::string, uint64_t> counts;
-    vx::Distinct rejected_cases;
-    bool complete = true;
-    auto fold = [&](fp::Pool& pool) {
-        for (auto& [k, v] : pool.counts) counts[k] += v;
-        for (auto h : pool.distinct["rejected"]) rejected_cases.add(h);
-        for (auto& s : pool.samples) E.sample(s);
-        if (!pool.complete) complete = false;
-    };
-
-    // run `fn` in a throw-away fork (it may change the node), forwarding its output
-    auto in_fork = [&](fp::Out& out, const std::string& what, const std::function<void()>& fn) {
-        out.send_counts(); // the child must not inherit (and re-send) counters accumulated so far
-        out.flush();
-        fflush(stdout);
-        if (ck::ThreadCount() != 1) {
-            if (getenv("C20_DEBUG_THREADS")) { std::string cmd = "for t in /proc/" + std::to_string(getpid()) + "/task/*; do cat $t/comm; done 1>&2; gdb -p " + std::to_string(getpid()) + " -batch -ex 'thread apply all bt 8' 2>/dev/null | grep '^#' | cut -c1-140 1>&2"; (void)!system(cmd.c_str()); }
-            out.count("harness_not_single_threaded");
-            return; // fork would be unsound
-        }
-        pid_t g = fork();
-        if (g < 0) throw std::runtime_error("C20: fork failed");
-        if (g == 0) {
-            w.PrivateDatadir();
-            fn();
-            out.send_counts();
-            out.flush();
-            fflush(stdout);
-            _exit(0);
-        }
-        int st = 0;
-        while (waitpid(g, &st, 0) < 0 && errno == EINTR) {}
-        if (!WIFEXITED(st) || WEXITSTATUS(st) != 0) out.violation("process-died:" + what, "the process died abnormally while running: " + what, what);
-    };
-
-    // ---------------------------------------------------------------- scenario: base header unknown (before header 110 is added)
+    Totals tot;
     {
-        fp::Pool pool;
-        pool.workers = 1;
-        pool.run(1, [&](uint64_t, fp::Out& out) {
-            in_fork(out, "scenario:unknown-base-header", [&] {
-                auto before = w.Observe();
-                std::string why;
-                auto r = w.Attempt(s110, false, &why);
-                out.count("scenario_cases");
-                if (r == World::ACTIVATED) out.violation("scenario:unknown-base-header", "snapshot activated although the node does not know the base block header", "scenario unknown-base-header");
-                else { out.count("scenario_rejected"); out.distinct("rejected", "scenario:unknown-base-header"); }
-                std::string d = World::Diff(before, w.Observe());
-                if (r != World::ACTIVATED && !d.empty()) out.violation("scenario:unknown-base-header:state", "failed activation changed the node:" + d, "scenario unknown-base-header");
-            });
-        }, [](uint64_t) { return std::string("scenario unknown-base-header"); });
-        fold(pool);
+        Inputs in;
+        in.tag = "tc";
+        in.blocks = blocks; in.s100 = s100; in.s110 = s110; in.s111 = s111; in.last_time = last_time; in.doctored = true;
+        if (int rc = Campaign(in, scratch, big, tot)) return rc;
     }
-    add_header(110);
-    T.Flush();
-
-    // ---------------------------------------------------------------- enumerated corruptions
-    std::vector<Case> cases;      // explicit files
-    StructuredCases(w, cases, /*all_coins=*/false);                // on-disk snapshot chainstate, each in its own fork
-    if (big) {
-        std::vector<Case> mem;
-        StructuredCases(w, mem, /*all_coins=*/true);               // in-memory, sequential
-        for (auto& c : mem) { c.in_memory = true; c.name += ":mem"; cases.push_back(std::move(c)); }
-    }
-    for (int k = 1; k <= 3; k++) for (unsigned char fill : {0x00, 0xff}) { Case c{strprintf("append:%d:%02x", k, fill), s110, true}; c.file.insert(c.file.end(), k, fill); cases.push_back(c); }
-    // flips and truncations are generated from their index
-    std::vector<size_t> flip_offsets;
-    if (big) for (size_t i = 0; i < s110.size(); i++) flip_offsets.push_back(i);
-    else {
-        // quick: whole metadata header, the first 3 and the last coin record
-        size_t rec = (s110.size() - 51) / 110;
-        for (size_t i = 0; i < 51 + 3 * rec && i < s110.size(); i++) flip_offsets.push_back(i);
-        for (size_t i = s110.size() - rec; i < s110.size(); i++) flip_offsets.push_back(i);
-    }
-    if (const char* e = getenv("C20_ALLFLIPS")) { (void)e; flip_offsets.clear(); for (size_t i = 0; i < s110.size(); i++) flip_offsets.push_back(i); }
-    const uint64_t n_flip = flip_offsets.size() * 2, n_trunc = s110.size(), n_explicit = cases.size();
-    const uint64_t total = n_flip + n_trunc + n_explicit;
-    auto make = [&](uint64_t j) -> Case {
-        if (j < n_flip) { size_t off = flip_offsets[j / 2]; unsigned char m = (j & 1) ? 0x80 : 0x01; Case c{strprintf("flip:%zu:%02x", off, m), s110, true}; c.file[off] ^= m; return c; }
-        j -= n_flip;
-        if (j < n_trunc) { Case c{strprintf("truncate:%llu", (unsigned long long)j), Bytes(s110.begin(), s110.begin() + j), true}; return c; }
-        j -= n_trunc;
-        return cases[j];
-    };
-    const uint64_t BATCH = 64;
+    if (ck::ThreadCount() != 1) { printf("HARNESS-ERROR C20: campaign left threads behind\n"); return 2; }
+    // ---------------------------------------------------------------- second world: a transaction-rich chain, commitment re-pointed
     {
-        fp::Pool pool;
-        pool.workers = 8;
-        pool.on_worker_start = [&](unsigned) { w.PrivateDatadir(); };
-        pool.run((total + BATCH - 1) / BATCH, [&](uint64_t job, fp::Out& out) {
-            World::State base = w.Observe();
-            for (uint64_t j = job * BATCH; j < std::min(total, (job + 1) * BATCH); j++) {
-                Case c = make(j);
-                Decoded d = Decode(c.file, w.netmagic);
-                const bool must_fail = w.MustFail(d);
-                out.count("cases");
-                const std::string replay = "case " + c.name + "\nfile hex: " + vx::hex(c.file).substr(0, 20000);
-                if (must_fail) {
-                    std::string why;
-                    auto r = w.Attempt(c.file, c.in_memory, &why);
-                    if (r == World::ACTIVATED) {
-                        std::string kind = c.name.substr(0, c.name.find(':'));
-                        out.violation("activated:" + (kind == "edit" ? c.name : kind + ":" + (d.ok ? std::string("set-differs") : d.err)),
-                                      "ActivateSnapshot succeeded for a file whose " + (d.ok ? std::string("decoded coin set / base block differs from the commitment") : "encoding is malformed (" + d.err + ")") + ": " + c.name, replay);
-                        out.count("worker_gave_up");
-                        out.send_counts();
-                        out.flush();
-                        _exit(0); // the node now runs on the bad snapshot: this process cannot continue
-                    }
-                    out.count(r == World::META_FAIL ? "rejected_at_metadata" : "rejected_by_activate");
-                    if (!c.in_memory) out.count("rejected_on_disk");
-                    out.distinct("rejected", c.name);
-                    World::State now = w.Observe();
-                    std::string diff = World::Diff(base, now);
-                    if (!diff.empty()) {
-                        out.violation("state-changed-after-failure:" + c.name.substr(0, c.name.find(':')), "failed activation (" + why + ") changed the node:" + diff + " — case " + c.name, replay);
-                        out.count("worker_gave_up");
-                        out.send_counts();
-                        out.flush();
-                        _exit(0);
-                    }
-                } else {
-                    // identical coin set and base block: acceptance is allowed; run in a fork and check the result
-                    in_fork(out, c.name, [&] {
-                        std::string why;
-                        auto r = w.Attempt(c.file, c.in_memory, &why);
-                        out.count("same_set_cases");
-                        if (r == World::ACTIVATED) {
-                            out.count("same_set_accepted");
-                            CoinMap got = NodeUtxo(w.T);
-                            if (got != w.orig.first) out.violation("accepted-set-differs:" + c.name, "after an accepted activation the active UTXO set is not the committed coin set: " + c.name, replay);
-                            if (w.T.tip()->GetBlockHash() != w.h110) out.violation("accepted-tip:" + c.name, "after an accepted activation the tip is not the base block", replay);
-                        } else {
-                            out.count("same_set_rejected");
-                            std::string diff = World::Diff(base, w.Observe());
-                            if (!diff.empty()) out.violation("state-changed-after-failure:same-set", "failed activation (" + why + ") changed the node:" + diff + " — case " + c.name, replay);
-                        }
-                        out.sample("same-set file " + c.name + " -> " + (r == World::ACTIVATED ? "accepted" : "rejected: " + why));
-                    });
-                }
-            }
-        }, [&](uint64_t job) { return strprintf("cases %llu..%llu (first: %s)", (unsigned long long)(job * BATCH), (unsigned long long)std::min(total, (job + 1) * BATCH) - 1, make(job * BATCH).name); });
-        fold(pool);
+        Inputs in;
+        in.tag = "rich";
+        in.doctored = false;
+        if (int rc = BuildRichWorld(in, scratch)) return rc;
+        if (ck::ThreadCount() != 1) { printf("HARNESS-ERROR C20: rich source node left threads behind\n"); return 2; }
+        if (int rc = Campaign(in, scratch, big, tot)) return rc;
     }
-
-    // ---------------------------------------------------------------- scenarios and background validation (each in a fork)
-    struct Scen { std::string name; std::function<void(fp::Out&)> run; };
-    std::vector<Scen> scens;
-    auto expect_reject = [&](fp::Out& out, const std::string& name, const Bytes& file, const std::string& what) {
-        auto before = w.Observe();
-        std::string why;
-        auto r = w.Attempt(file, false, &why);
-        out.count("scenario_cases");
-        if (r == World::ACTIVATED) { out.violation("scenario:" + name, "snapshot activated although " + what, "scenario " + name); return; }
-        out.count("scenario_rejected");
-        out.distinct("rejected", "scenario:" + name);
-        std::string d = World::Diff(before, w.Observe());
-        if (!d.empty()) out.violation("scenario:" + name + ":state", "failed activation (" + why + ") changed the node:" + d, "scenario " + name);
-    };
-    auto feed = [&](int from, int to) { for (int h = from; h <= to; h++) T.ProcessBlock(blocks[h]); };
-    scens.push_back({"non-assumeutxo-height-100", [&](fp::Out& o) { expect_reject(o, "non-assumeutxo-height-100", s100, "its base block (height 100) is not an assumeutxo block"); }});
-    scens.push_back({"non-assumeutxo-height-111", [&](fp::Out& o) { add_header(111); expect_reject(o, "non-assumeutxo-height-111", s111, "its base block (height 111) is not an assumeutxo block"); }});
-    scens.push_back({"base-marked-invalid", [&](fp::Out& o) { if (!T.Invalidate(blocks[110].GetHash())) throw std::runtime_error("invalidate"); expect_reject(o, "base-marked-invalid", s110, "its base block is marked invalid"); }});
-    scens.push_back({"base-ancestor-marked-invalid", [&](fp::Out& o) { if (!T.Invalidate(blocks[105].GetHash())) throw std::runtime_error("invalidate"); expect_reject(o, "base-ancestor-marked-invalid", s110, "an ancestor of its base block is marked invalid"); }});
-    scens.push_back({"equal-work-tip-at-base", [&](fp::Out& o) { feed(101, 110); if (T.height() != 110) throw std::runtime_error("feed"); expect_reject(o, "equal-work-tip-at-base", s110, "the active tip already is the base block (no more work)"); }});
-    scens.push_back({"less-work-than-tip", [&](fp::Out& o) { feed(101, 111); if (T.height() != 111) throw std::runtime_error("feed"); expect_reject(o, "less-work-than-tip", s110, "the active tip has more work than the base block"); }});
-    // positive control + second activation + background validation of the genuine snapshot
-    scens.push_back({"genuine-then-background-validation", [&](fp::Out& o) {
-        auto before = w.Observe();
-        std::string why;
-        auto r = w.Attempt(s110, false, &why);
-        o.count("scenario_cases");
-        if (r != World::ACTIVATED) { o.violation("genuine-rejected", "the genuine snapshot was rejected: " + why, "scenario genuine"); return; }
-        o.count("genuine_accepted");
-        if (NodeUtxo(T) != w.orig.first || T.tip()->GetBlockHash() != w.h110) o.violation("genuine-active-set", "after activating the genuine snapshot the active chainstate is not (block 110, committed coin set)", "scenario genuine");
-        { LOCK(cs_main); if (T.chainman().m_chainstates.size() != 2) o.violation("genuine-chainstates", "expected two chainstates after activation", "scenario genuine"); }
-        // second activation must fail and change nothing
-        expect_reject(o, "second-activation", s110, "a snapshot chainstate is already active");
-        // background validation: feed the historical blocks
-        feed(101, 110);
-        LOCK(cs_main);
-        auto& cur = T.chainman().CurrentChainstate();
-        bool validated = cur.m_from_snapshot_blockhash && cur.m_assumeutxo == Assumeutxo::VALIDATED;
-        if (!validated || (bool)T.m_interrupt) o.violation("background-validation-genuine", "background validation of the genuine snapshot did not report success", "scenario genuine + blocks 101..110");
-        else o.count("background_validated");
-        (void)before;
-    }});
-    // doctored but self-consistent snapshots: commitment re-pointed (harness side) at the doctored set
-    struct Doc { std::string name; std::function<void(Snap&)> f; };
-    std::vector<Doc> docs = {
-        {"amount+1", [](Snap& s) { s.groups[7].coins[0].second.amount += 1; }},
-        {"height-1", [](Snap& s) { s.groups[7].coins[0].second.height -= 1; }},
-        {"coinbase-bit", [](Snap& s) { s.groups[7].coins[0].second.cb = false; }},
-        {"script-byte", [](Snap& s) { s.groups[7].coins[0].second.script[20] ^= 4; }},
-        {"coin-removed", [](Snap& s) { s.groups.erase(s.groups.begin() + 7); s.count -= 1; }},
-        {"coin-added", [](Snap& s) { Group e = s.groups[7]; e.txid[3] ^= 0x77; s.groups.push_back(e); s.count += 1; }},
-    };
-    for (auto& dc : docs) {
-        scens.push_back({"doctored:" + dc.name, [&, dc](fp::Out& o) {
-            Snap s = w.orig.s;
-            dc.f(s);
-            Bytes file = Encode(s);
-            Decoded d = Decode(file, w.netmagic);
-            if (!d.ok) throw std::runtime_error("doctored snapshot does not decode");
-            o.count("scenario_cases");
-            // without re-pointing it must be rejected (also covered by the structured edits)
-            {
-                auto before = w.Observe();
-                auto r0 = w.Attempt(file, false);
-                if (r0 == World::ACTIVATED) { o.violation("doctored-accepted:" + dc.name, "doctored snapshot accepted against the genuine commitment", "scenario doctored " + dc.name); return; }
-                std::string df = World::Diff(before, w.Observe());
-                if (!df.empty()) o.violation("doctored-state:" + dc.name, "failed activation changed the node:" + df, "scenario doctored " + dc.name);
-            }
-            auto& params = const_cast<CChainParams&>(Params());
-            for (auto& a : params.m_assumeutxo_data) if (a.height == 110) a.hash_serialized = AssumeutxoHash{HashSerializedRef(d.first)};
-            std::string why;
-            auto r = w.Attempt(file, false, &why);
-            if (r != World::ACTIVATED) { o.violation("harness-doctored-not-accepted:" + dc.name, "a self-consistent snapshot was rejected although the commitment was re-pointed at the reference hash of its coin set: " + why, "scenario doctored " + dc.name); return; }
-            o.count("doctored_accepted_after_repoint");
-            feed(101, 110);
-            LOCK(cs_main);
-            bool snapshot_invalid = false, still_trusted = false;
-            for (auto& cs : T.chainman().m_chainstates) {
-                if (cs && cs->m_from_snapshot_blockhash) {
-                    if (cs->m_assumeutxo == Assumeutxo::INVALID) snapshot_invalid = true;
-                    if (cs->m_assumeutxo == Assumeutxo::VALIDATED) still_trusted = true;
-                }
-            }
-            if (!snapshot_invalid || still_trusted || !(bool)T.m_interrupt)
-                o.violation("background-validation-missed:" + dc.name, "background validation reached the base block with a UTXO set that differs from the loaded (doctored) snapshot but did not report the mismatch", "scenario doctored " + dc.name + " + blocks 101..110");
-            else { o.count("background_mismatch_detected"); o.distinct("rejected", "doctored-bg:" + dc.name); }
-        }});
-    }
-    {
-        fp::Pool pool;
-        pool.workers = 4;
-        pool.run(scens.size(), [&](uint64_t j, fp::Out& out) { in_fork(out, "scenario " + scens[j].name, [&] { scens[j].run(out); }); }, [&](uint64_t j) { return "scenario " + scens[j].name; });
-        fold(pool);
-    }
-
+    auto& counts = tot.counts;
+    auto& rejected_cases = tot.rejected_cases;
+    const bool complete = tot.complete;
     // ---------------------------------------------------------------- evidence
-    E.evaluations += counts["cases"] + counts["scenario_cases"];
+    E.evaluations += counts["tc.cases"] + counts["tc.scenario_cases"] + counts["rich.cases"] + counts["rich.scenario_cases"];
     E.distinct_nontrivial = rejected_cases.size();
     E.exhaustive = complete;
     for (auto& [k, v] : counts) { printf("  %s = %llu\n", k.c_str(), (unsigned long long)v); E.set(k, v); }
-    E.set("snapshot_bytes", (uint64_t)s110.size());
-    E.set("flip_offsets", (uint64_t)flip_offsets.size());
-    E.rule = std::string("valid regtest snapshot of the TestChain100Setup chain at height 110 (real dump code). Cases: ") + (big ? "every byte" : "every byte of the metadata header, of the first 3 and of the last coin record") +
-             " x {xor 0x01, xor 0x80}; every truncation length 0..size-1; 1-3 appended bytes (00/ff); structured single-field edits (count, base hash, version, magics, per coin " + (big ? "(all 110)" : "(5 coins)") +
-             ": height, coinbase bit, amount, script, index, txid, removed, added output, emptied group; extra / duplicated / conflicting-duplicate / reordered / re-encoded coins); scenarios (unknown base header, non-assumeutxo heights 100 and 111, invalid base, invalid ancestor, equal work, less work, second activation, genuine snapshot + background validation, 6 doctored snapshots with re-pointed commitment + background validation). "
-             "Each case = real SnapshotMetadata deserialisation + ChainstateManager::ActivateSnapshot on a live regtest node. distinct_nontrivial = distinct cases that had to be rejected and were (with the node verified unchanged).";
+    for (auto& [k, v] : tot.snapshot_bytes) E.set("snapshot_bytes." + k, (uint64_t)v);
+    for (auto& [k, v] : tot.flip_offsets) E.set("flip_offsets." + k, (uint64_t)v);
+    E.rule = std::string("two valid regtest snapshots written by the real dump code at height 110: 'tc' = the TestChain100Setup chain (genuine chainparams commitment, 110 coinbase coins), 'rich' = a chainkit chain with multi-output txids, spent siblings, non-coinbase coins, a 3-byte output index, zero amounts and every compressed script form but uncompressed keys (commitment re-pointed at the reference hash of the dump). Cases per snapshot: ") + (big ? "every byte" : "every byte of the metadata header, of the first ~3 and of the last coin record") +
+             " x {xor 0x01, xor 0x80}; every truncation length 0..size-1; 1-3 appended bytes (00/ff); structured single-field edits (count, base hash, version, magics; per coin " + (big ? "(all txid groups)" : "(5 groups + every multi-output group)") +
+             ": height, coinbase bit, amount, script, index, txid, removed, added / dropped / swapped / exchanged outputs, emptied or split group; extra / duplicated / conflicting-duplicate / reordered / re-encoded coins); scenarios (unknown base header, non-assumeutxo heights 100 and 111 [tc], invalid base, invalid ancestor, equal work, less work, second activation, genuine snapshot + background validation of blocks 101..110, 6 doctored self-consistent snapshots with re-pointed commitment + background validation [tc]). "
+             "Each case = real SnapshotMetadata deserialisation + ChainstateManager::ActivateSnapshot on a live regtest node in IBD. distinct_nontrivial = distinct cases that had to be rejected and were (with tip, chainstates, active UTXO set and datadir verified unchanged).";
     E.assume("the reference decoder treats the uncompressed-public-key script forms (types 4/5) as opaque; the snapshots used contain none");
     E.assume("SHA256d collisions are not reachable by the enumerated edits");
-    auto need = [&](bool c, const char* what) { if (!c && vx::rep().violations == 0) { printf("HARNESS-ERROR C20 vacuous: %s\n", what); return false; } return true; };
+    E.assume("for the 'rich' world and the doctored scenarios the assumeutxo entry of height 110 in the in-memory CChainParams is overwritten by the harness (no source change)");
+    auto need = [&](bool c, const std::string& what) { if (!c && vx::rep().violations == 0) { printf("HARNESS-ERROR C20 vacuous: %s\n", what.c_str()); return false; } return true; };
     bool g = true;
-    g &= need(counts["rejected_at_metadata"] > 0 && counts["rejected_by_activate"] > 0, "both rejection stages must occur");
-    g &= need(counts["same_set_accepted"] > 0, "no set-preserving re-encoding was accepted (positive path never taken)");
-    g &= need(counts["genuine_accepted"] == 1 && counts["background_validated"] == 1, "genuine snapshot + background validation did not succeed");
-    g &= need(counts["background_mismatch_detected"] == docs.size(), "not every doctored snapshot was caught by background validation");
-    g &= need(counts["scenario_rejected"] >= 8, "scenarios missing");
-    if (counts["harness_not_single_threaded"]) { printf("HARNESS-ERROR C20: a process that had to fork was not single-threaded\n"); g = false; }
+    for (std::string t : {"tc", "rich"}) {
+        g &= need(counts[t + ".rejected_at_metadata"] > 0 && counts[t + ".rejected_by_activate"] > 0 && counts[t + ".rejected_on_disk"] > 0, t + ": every rejection stage must occur");
+        g &= need(counts[t + ".same_set_accepted"] > 0, t + ": no set-preserving re-encoding was accepted (positive path never taken)");
+        g &= need(counts[t + ".genuine_accepted"] == 1 && counts[t + ".background_validated"] == 1, t + ": genuine snapshot + background validation did not succeed");
+        g &= need(counts[t + ".scenario_rejected"] >= (t == "tc" ? 8u : 6u), t + ": scenarios missing");
+        if (counts[t + ".harness_not_single_threaded"]) { printf("HARNESS-ERROR C20: a process that had to fork was not single-threaded (%s)\n", t.c_str()); g = false; }
+    }
+    g &= need(counts["tc.background_mismatch_detected"] == 6, "not every doctored snapshot was caught by background validation");
     int rc = vx::finish();
     if (!g && rc == 0) return 2;
     return rc;
